@@ -94,6 +94,18 @@ defects = [
     job("c05.confusion", secs=30, n=2, k=2, lab=USIZE, recv=3),
 ]
 
+# ROC / AUC / log-loss over score grids (scores are f32 `Pr`: solver-enumerated grid points, not symbolic scalars)
+for n, levels in ((2, 3), (3, 3), (3, 5), (4, 3)):
+    for form in (0, 1):
+        quick.append(job("c05.roc", secs=120, n=n, levels=levels, form=form))
+quick.append(job("c05.roc", secs=240, jobs=4, n=4, levels=5))
+quick.append(job("c05.log_loss", secs=60, n=2, levels=5))
+quick.append(job("c05.log_loss", secs=120, n=3, levels=5))
+thorough.append(job("c05.roc", secs=1200, jobs=16, n=5, levels=5))
+thorough.append(job("c05.roc", secs=1200, jobs=16, n=6, levels=3))
+thorough.append(job("c05.roc", secs=1200, jobs=16, n=4, levels=9))
+thorough.append(job("c05.log_loss", secs=600, jobs=8, n=4, levels=9))
+
 thorough = quick + thorough
 quick = quick + defects
 thorough = thorough + defects
